@@ -53,7 +53,7 @@ CLAIMED = {
             "Exploration: random histories of Register*/call/LoadTemplates over names {f, g, own built-in, other type's built-in, function returning an unsupported kind} x five receiver types x 0..3 arguments of any kind (nested arrays/objects, nil), literal and variable form, direct and through a loaded template; all histories of length <= 3 over an 11-operation alphabet. Checked: duplicate registration rejected and never replaces; built-in wins; the closure of the first registration receives receiver/arguments as plain Go values; the result renders like the same value passed as data; unregistered name -> error naming function and receiver type.",
             "Trusted: the reset hook (the registry cannot be emptied through the API), recording closures. Strings avoid < > & (literal escaping is C10's subject).", "exploration"),
     "C16": ("4 C16", "bounded exhaustive enumeration of operation histories + rapid random histories; oracle: every operation's result equals the same operation issued first after a fresh load (reset hook), configuration and caller data unchanged",
-            "Exploration: all histories of length <= 2 (quick) / 3 (thorough) over 31 operation instances {String, Response, EvaluateString, EvaluateFile} x {succeeding, failing, not found, binding names at template level with and without data} under 6 configurations (debug x custom error page none/working/missing/failing); random histories of length 4..40. Results compared: output, error message + line + path, Response body + returned error.",
+            "Exploration: all histories of length <= 2 (quick) / 3 (thorough) over 33 operation instances {String, Response, EvaluateString, EvaluateFile} x {succeeding, failing, not found, binding names at template level with and without data} under 6 configurations (debug x custom error page none/working/missing/failing); random histories of length 4..40. Results compared: output, error message + line + path, Response body + returned error.",
             "Trusted: the reset hook gives the fresh-state baseline; scratch directory names are normalised. One fixed template directory (layout, component, loops, objects) is used: history independence is about call sequences, not template variety.", "exploration"),
     "C17": ("4 C17", "property-based testing (rapid) over configurations x generated failing/succeeding pages; differential oracle against String() and against rendering the built-in error page source with the failure's fields",
             "Exploration: {debug on/off} x {no / working / missing / failing custom error page} x pages that succeed (plain, layout+component) or fail after 1..4 uniquely marked chunks at top level, in a loop pass, in a layout insert, in a component argument, in a slot body, or do not exist. Success: nil and body == String(); failure: non-nil error, no marker of the failed page, body == custom page / empty / built-in page; debug off: no message, no path; debug on: message, path, line.",
